@@ -43,8 +43,9 @@ var factCallExpand func(call *ast.CallExpr, val bool) []condFact
 // autoExpanders caches the boolean-local expander of a function body (keyed by the root of its parent map)
 var autoExpanders = map[ast.Node]func(e ast.Expr) ast.Expr{}
 
-func collectFacts(parents map[ast.Node]ast.Node, at ast.Node) []condFact {
-	var out []condFact
+// factAdder returns the function that adds a condition (with polarity) to a fact list: it flattens
+// conjunctions, pushes negations inward, expands single-assignment boolean locals and boolean helpers.
+func factAdder(parents map[ast.Node]ast.Node, at ast.Node, out *[]condFact) func(e ast.Expr, neg bool) {
 	var add func(e ast.Expr, neg bool)
 	depth := 0
 	factExpand := factExpand
@@ -80,7 +81,7 @@ func collectFacts(parents map[ast.Node]ast.Node, at ast.Node) []condFact {
 		// a boolean helper of the repository stands for the conditions of the path that yields the value
 		if call, ok := e.(*ast.CallExpr); ok && factCallExpand != nil && depth < 4 {
 			if fs := factCallExpand(call, !neg); len(fs) > 0 {
-				out = append(out, condFact{e, neg}) // keep the call itself as a fact too
+				*out = append(*out, condFact{e, neg}) // keep the call itself as a fact too
 				depth++
 				for _, f := range fs {
 					add(f.e, f.neg)
@@ -96,8 +97,14 @@ func collectFacts(parents map[ast.Node]ast.Node, at ast.Node) []condFact {
 				return
 			}
 		}
-		out = append(out, condFact{e, neg})
+		*out = append(*out, condFact{e, neg})
 	}
+	return add
+}
+
+func collectFacts(parents map[ast.Node]ast.Node, at ast.Node) []condFact {
+	var out []condFact
+	add := factAdder(parents, at, &out)
 	child := at
 	for n := parents[at]; n != nil; child, n = n, parents[n] {
 		switch x := n.(type) {
